@@ -139,6 +139,7 @@ package ledger
 //@   local kvErr error
 //@   local newMeta *xldgpb.LedgerMeta
 //@   local batchWrite kvdb.Batch
+//@   at Ledger.updateBranchInfo assert [C04] new_block_replaces_its_parent_as_a_tip: $0 == block.Blockid && $1 == block.PreHash && $2 == block.Height && $3 == batchWrite
 // The confirmation batch is shared between calls: what is written with a block is only
 // what this confirmation queued - the batch was emptied before anything was queued here
 // (a rejected block's leftovers must not ride along with the next one).
@@ -188,6 +189,7 @@ package ledger
 //@   at Batch.Write assert [C05] only_this_truncation_is_written: sel(batchResetAt, ifacePtr(recv)) == old(kvQueued)
 //@   at Batch.Write assert meta_goes_with_the_removals: recv == batchWrite && sel(sel(batchOp, ifacePtr(recv)), xldgpb.MetaTablePrefix) == 1
 //@   at Ledger.removeBlocks assert removals_in_the_same_batch: $2 == batchWrite && bytesEq($1, block.Blockid)
+//@   at Ledger.updateBranchInfo assert [C04] target_recorded_as_a_tip_at_its_own_height: bytesEq($0, block.Blockid) && $2 == block.Height && $3 == batchWrite
 //@   at fieldwrite.meta assert [C05] memory_follows_the_disk: err == nil && $1 == newMeta
 //@   ensures [C05] failure_keeps_the_meta: result != nil ==> l.meta == old(l.meta)
 //@   at fieldwrite.meta assert [C04] target_becomes_the_tip: newMeta.TipBlockid == utxovmLastID && newMeta.TrunkHeight == block.Height
@@ -206,6 +208,13 @@ package ledger
 //@   at Ledger.saveBlock#1 assert old_trunk_block_leaves: $0 == pBlock && (pBlock != qBlock ==> !pBlock.InTrunk && len(pBlock.NextHash) == 0) && $1 == batchWrite
 //@   at Ledger.saveBlock#2 assert new_trunk_block_joins: $0 == qBlock && qBlock.InTrunk && $1 == batchWrite
 //@   at Ledger.saveBlock#3 assert fork_point_links_to_the_new_branch: $0 == splitBlock && splitBlock.InTrunk && splitBlock.NextHash == nextHash && $1 == batchWrite
+
+// A branch record is "tip -> height": the parent (or, in a truncation, the removed tip)
+// leaves the table and the new tip enters it with its own height, in the caller's batch (C04).
+//@ func Ledger.updateBranchInfo
+//@   property C04
+//@   at Batch.Delete assert [C04] replaced_tip_leaves_the_table: recv == batch && str($0) == xldgpb.BranchInfoPrefix + str(deletedBlockid)
+//@   at Batch.Put assert [C04] new_tip_enters_with_its_height: recv == batch && str($0) == xldgpb.BranchInfoPrefix + str(addedBlockid) && parseDec(str($1)) == addedBlockHeight
 
 // The branch tips handed to a truncation are exactly the recorded tips that are
 // STRICTLY higher than the target (the target itself excluded): a tip at the target's
